@@ -231,3 +231,91 @@ def passes_r10_count(entries):
     cs = sorted(sum(M[i][j] for i in range(5)) for j in range(5))
     ok = ([3, 3, 3, 3, 3], [3, 3, 3, 3, 5])
     return rs in ok and cs in ok
+
+
+def graph_instance(rng, nv, ne, signed, loops=True):
+    """random multi(di)graph with a random spanning forest; returns (M, witness_tokens) where M = M(G,T) (signed: with
+    arc reversals applied) with rows in a random order of the forest edges and columns in a random order of the others;
+    witness_tokens = '1 <graph> <forest ids> <coforest ids> <rev ids>' in the format of GraphModel.dwitness"""
+    edges = []
+    for e in range(ne):
+        u = rng.below(nv)
+        v = rng.below(nv)
+        if not loops:
+            while v == u and nv > 1:
+                v = rng.below(nv)
+        edges.append((u, v))
+    rev = [e for e in range(ne) if signed and rng.below(3) == 0]
+    arcs = [((v, u) if e in rev else (u, v)) for e, (u, v) in enumerate(edges)]
+    # random spanning forest by union-find over a shuffled edge order
+    comp = list(range(nv))
+
+    def find(x):
+        while comp[x] != x:
+            comp[x] = comp[comp[x]]
+            x = comp[x]
+        return x
+    order = rng.shuffle(list(range(ne)))
+    forest = []
+    for e in order:
+        u, v = edges[e]
+        a, b = find(u), find(v)
+        if a != b:
+            comp[a] = b
+            forest.append(e)
+    fset = set(forest)
+    coforest = [e for e in rng.shuffle(list(range(ne))) if e not in fset]
+    forest = rng.shuffle(forest)
+    adj = {x: [] for x in range(nv)}
+    for e in forest:
+        u, v = arcs[e]
+        adj[u].append((v, e, 1))    # traversing u->v is forward
+        adj[v].append((u, e, -1))
+
+    def path(s, t):
+        # BFS in the forest
+        prev = {s: None}
+        q = [s]
+        while q:
+            x = q.pop(0)
+            if x == t:
+                break
+            for (y, e, sg) in adj[x]:
+                if y not in prev:
+                    prev[y] = (x, e, sg)
+                    q.append(y)
+        res = {}
+        x = t
+        while prev.get(x) is not None:
+            px, e, sg = prev[x]
+            res[e] = sg
+            x = px
+        return res
+    rowidx = {e: i for i, e in enumerate(forest)}
+    M = [[0] * len(coforest) for _ in forest]
+    for j, f in enumerate(coforest):
+        u, v = arcs[f]
+        for e, sg in path(u, v).items():
+            M[rowidx[e]][j] = sg if signed else 1
+    toks = [1, nv] + list(range(nv)) + [ne]
+    for e, (u, v) in enumerate(edges):
+        toks += [e, u, v]
+    toks += [len(forest)] + forest + [len(coforest)] + coforest + [len(rev)] + rev
+    return M, " ".join(str(t) for t in toks)
+
+
+F7T = [[1, 1, 0], [1, 0, 1], [0, 1, 1], [1, 1, 1]]
+K33_DUAL = [[1, 0, 0, 1, 1], [1, 1, 0, 0, 1], [0, 1, 1, 0, 1], [0, 0, 1, 1, 1]]   # candidate non-graphic 4x5 core; confirmed by the oracle at run time
+
+
+def embed_core(rng, core, extra_rows, extra_cols, alphabet=(0, 1)):
+    """embed `core` as a submatrix (increasing index lists) of a random larger matrix; returns (M, rs, cs)"""
+    m0, n0 = len(core), len(core[0])
+    m, n = m0 + extra_rows, n0 + extra_cols
+    rs = sorted(rng.shuffle(list(range(m)))[:m0])
+    cs = sorted(rng.shuffle(list(range(n)))[:n0])
+    M = rand_matrix(rng, m, n, alphabet, 3, 10)
+    for a, i in enumerate(rs):
+        for b, j in enumerate(cs):
+            M[i][j] = core[a][b]
+    return M, rs, cs
